@@ -245,6 +245,7 @@ func Rebuild(env *Env, cfg rig.Config, drive string) (*rig.Stack, error, error) 
 	}
 	cfg.ReadOnly = false
 	cfg.NoWriteOps = false
+	cfg.Overwrite = false
 	st, err := rig.NewStack(dir, cfg, env.Keys)
 	if err != nil {
 		return nil, nil, err
@@ -286,6 +287,7 @@ func Reopen(env *Env, cfg rig.Config, src *rig.Stack) (*rig.Stack, error) {
 	if err := CopyFile(src.Index, dir+"/index.sqlite"); err != nil {
 		return nil, err
 	}
+	cfg.Overwrite = false
 	st, err := rig.NewStack(dir, cfg, env.Keys)
 	if err != nil {
 		return nil, err
@@ -407,7 +409,9 @@ func RunE1(env *Env, job *E1Job) *E1Res {
 						return err, ""
 					}
 				}
-				ns, err := rig.NewStack(dir, job.Cfg, env.Keys)
+				ncfg := job.Cfg
+				ncfg.Overwrite = false // a later process does not ask for an explicit overwrite again
+				ns, err := rig.NewStack(dir, ncfg, env.Keys)
 				if err != nil {
 					return err, ""
 				}
